@@ -92,7 +92,20 @@ func (v View) acceptable(w *WEv, ws []*WEv, ds []*DEv, ts int64) bool {
 		// in flight (or cut): cannot be "definitely before" anything
 		return true
 	}
+	// A delete that covers the cell and had not returned when the read began (or was cut by the crash)
+	// may be applied to some files only: it can hide a newer version and expose an older one.  Deletes
+	// are atomic per file, not across files, and the properties constrain acknowledged operations, so a
+	// stale version is not held against the store while such a delete is in progress.
+	partial := false
+	for _, d := range ds {
+		if d.Inv < v.AsOf && d.Inv < v.RRet && ts >= d.Min && ts <= d.Max && !(v.ret(d.Ret) < v.RInv) {
+			partial = true
+		}
+	}
 	for _, x := range ws {
+		if partial {
+			break
+		}
 		if x == w || x.Failed || x.Inv >= v.AsOf {
 			continue
 		}
